@@ -57,6 +57,32 @@ def _refused(ck, fi, cfg, pattern: str, refused_when: bool, rule, key_present, k
     return edges
 
 
+def _known(node, fn, extra=()) -> list:
+    """[(positive atom, truth)] known where `node` executes (shape.facts_at) plus `extra`, in which a condition that is
+    held in a local (`flag = p or q` ... `if flag:` / `x if flag else y`) is opened up: its resolved definition is
+    decomposed like a test written in place."""
+    out = []
+    for a_, t_ in list(shape.facts_at(node, fn)) + list(extra):
+        out.append((a_, t_))
+        if isinstance(a_, ast.Name):
+            out += list(shape.conjuncts(shape.resolve(a_, fn), "t" if t_ else "f"))
+    return out
+
+
+def _cases(e, fn, depth: int = 3) -> list:
+    """The values an expression can take, with the conditions under which it takes them: [(value, [(atom, truth)])].
+    A local is followed to its dominating definition, a conditional expression `A if C else B` gives A under C and B
+    under not C (C opened up if it is a named condition); anything else is one unconditional case."""
+    v = shape.unalias(e, fn)
+    if depth > 0 and isinstance(v, ast.IfExp):
+        out = []
+        for branch, edge in ((v.body, "t"), (v.orelse, "f")):
+            cond = list(shape.conjuncts(v.test, edge))
+            out += [(x, cond + more) for x, more in _cases(branch, fn, depth - 1)]
+        return out
+    return [(v, [])]
+
+
 EXPONENT_VALUES = ("0", "_to_magnitude(other, *_R, **_K)", "other.to_root_units().magnitude", "other.to_root_units()._magnitude", "other.m_as('')", "other.m_as(self.UnitsContainer())")
 
 
@@ -218,31 +244,47 @@ def run(ck, ix, tier):
                      f"{m}: the fallback for non-array magnitudes does not use the functional twin with the matching operator")
     fi = ix.func(PQ, "PlainQuantity.__truediv__")
     ck.analysed(fi)
-    # by role: the plain `operator.truediv` division is reached only when neither operand has an int magnitude, every
-    # other division goes through _truedivide_cast_int (whatever the shape of the test that separates the two)
+    # by role: for every `_mul_div(other, OP, ...)` call and every value OP can take there (a conditional expression or a
+    # local selecting the operator counts branch by branch): OP is _truedivide_cast_int, or both operands are known not
+    # to have an int magnitude - whatever the shape of the test that separates the two
+    fn = fi.node
+
     def int_magnitude_of(who):
         def pred(a_):
-            m_ = shape.match("isinstance(_X, int)", a_) or shape.match("isinstance(_X, int)", shape.resolve(a_, fi.node))
+            m_ = shape.match("isinstance(_X, int)", a_) or shape.match("isinstance(_X, int)", shape.resolve(a_, fn))
             return m_ is not None and who in m_["_X"] and any(f".{attr}" in m_["_X"] or f"'{attr}'" in m_["_X"] for attr in ("m", "magnitude", "_magnitude"))
         return pred
-    divs_ = [c for c in walk_local(fi.node) if isinstance(c, ast.Call) and call_name(c) == "_mul_div" and len(c.args) >= 2]
-    cast_ = [c for c in divs_ if _is("self._truedivide_cast_int", c.args[1], fi.node)]
-    plain_ = [c for c in divs_ if c not in cast_]
-    ok = bool(cast_) and all(shape.holds_at(c, fi.node, int_magnitude_of("self"), False) and shape.holds_at(c, fi.node, int_magnitude_of("other"), False) for c in plain_)
+    divs_ = [c for c in walk_local(fn) if isinstance(c, ast.Call) and call_name(c) == "_mul_div" and len(c.args) >= 2]
+    ops_ = [(c, v, _known(c, fn, cond)) for c in divs_ for v, cond in _cases(c.args[1], fn)]
+    is_cast_ = lambda v: _is("self._truedivide_cast_int", v, fn)
+    refuted_ = lambda facts, pred: any(pred(a_) and t_ is False for a_, t_ in facts)
+    ok = any(is_cast_(v) for c, v, facts in ops_) and all(is_cast_(v) or (refuted_(facts, int_magnitude_of("self")) and refuted_(facts, int_magnitude_of("other"))) for c, v, facts in ops_)
     ck.check(ok, "G-PROV", "PlainQuantity.__truediv__|int-cast-if-either-operand-is-int", fi.loc(),
              "an int magnitude on either side is divided in the registry's numeric type",
              "__truediv__ no longer routes through _truedivide_cast_int when *either* operand has an int magnitude (int/int would become a float in Decimal/Fraction registries)")
     fi = ix.func(PQ, "PlainQuantity._truedivide_cast_int")
-    src = norm(fi.node)
-    dd_ = defs_of(fi)
-    tds = [c for c in walk_local(fi.node) if isinstance(c, ast.Call) and norm(c.func) in ("operator.truediv", "truediv") and len(c.args) == 2]
-    okt = len(tds) == 1 and [norm(x) for x in tds[0].args] == ["a", "b"]
-    from .. import shape as _s5
-    for p_ in ("a", "b"):
-        casts = [a_ for a_ in walk_local(fi.node) if isinstance(a_, ast.Assign) and norm(a_.targets[0]) == p_ and isinstance(a_.value, ast.Call) and [norm(x) for x in a_.value.args] == [p_]]
-        okp = len(casts) == 1 and "self._REGISTRY.non_int_type" in (dd_.roots(casts[0].value.func) | {norm(casts[0].value.func)}) \
-            and _s5.holds_at(casts[0], fi.node, lambda t_, p_=p_: norm(t_) == f"isinstance({p_}, int)", True)
-        okt = okt and okp
+    fn = fi.node
+    # by role: one true division; what reaches its i-th position is the i-th parameter, cast to the registry's
+    # non_int_type exactly when it is an int - by re-binding the parameter under the test or by a conditional expression
+    tds = [c for c in walk_local(fn) if isinstance(c, ast.Call) and norm(c.func) in ("operator.truediv", "truediv") and len(c.args) == 2]
+    operands = [a_.arg for a_ in fn.args.args][1:3]
+
+    def casts_int(p_, arg):
+        is_int = lambda a_: _is(f"isinstance({p_}, int)", a_, fn)
+        is_cast = lambda v: isinstance(v, ast.Call) and not v.keywords and [norm(x) for x in v.args] == [p_] and _is("self._REGISTRY.non_int_type", v.func, fn)
+        rebinds = [a_ for a_ in walk_local(fn) if isinstance(a_, ast.Assign) and norm(a_.targets[0]) == p_]
+        guarded = [a_ for a_ in rebinds if is_cast(a_.value) and shape.holds_at(a_, fn, is_int, True)]
+        seen = len(guarded) == 1 and len(rebinds) == 1
+        if rebinds and not seen:
+            return False
+        for v, cond in _cases(arg, fn):
+            facts = _known(arg, fn, cond)
+            if is_cast(v) and any(is_int(a_) and t_ is True for a_, t_ in facts):
+                seen = True
+            elif not (norm(v) == p_ and (rebinds or any(is_int(a_) and t_ is False for a_, t_ in facts))):
+                return False
+        return seen
+    okt = len(tds) == 1 and len(operands) == 2 and all(casts_int(p_, x) for p_, x in zip(operands, tds[0].args))
     ck.check(okt, "G-PROV", "PlainQuantity._truedivide_cast_int|casts-ints-to-non_int_type", fi.loc(),
              "ints are cast to non_int_type before dividing", "_truedivide_cast_int no longer casts both int operands to the registry's non_int_type")
 
